@@ -30,7 +30,7 @@ func genC08(g *Gen, tier string) *Program {
 	genWorkload(g, p, wlOpts{
 		tasks: [2]int{1, 3}, ops: [2]int{3, maxOps}, scopes: 3,
 		wDerive: 3, wCounter: 3, wInc: 8, wGauge: 1, wUpd: 2, wHist: 1, wRecH: 2, wTimer: 1, wRec: 1, wClose: 1, wSleep: 2, wYield: 1,
-		reacquire: 70, closer: 100, closers: 3,
+		reacquire: 70, closer: 100, closers: 3, ownGauge: true,
 	})
 	// some recorders keep going after they closed the root themselves
 	for ti := range p.Tasks {
@@ -84,15 +84,51 @@ func checkC08(env *Env) []Violation {
 
 	// 1. everything recorded before Close was called has been delivered when a Close call returns
 	counters := newLedgers()
+	hists := newLedgers()
+	type gaugeLed struct {
+		name  string
+		tags  map[string]string
+		last  uint64 // last required update
+		have  bool
+		later map[uint64]bool // optional updates after it
+		tasks map[int]bool
+	}
+	gauges := map[string]*gaugeLed{}
 	for _, r := range ops {
 		mv, _ := r.Obj.(*metricVar)
-		if mv == nil || r.Op.K != "inc" {
+		if mv == nil {
 			continue
 		}
-		if ob := ci.obligation(mv, r); ob != forbidden {
+		ob := ci.obligation(mv, r)
+		if ob == forbidden {
+			continue
+		}
+		switch r.Op.K {
+		case "inc":
 			counters.get(mv).add(r.Op.I, ob == required)
+		case "recv", "recd":
+			if (r.Op.K == "recv") == (mv.spec == nil || !mv.spec.Dur) {
+				hists.get(mv).add(1, ob == required)
+			}
+		case "upd":
+			k := idKey(mv.FullName, mv.Tags)
+			g := gauges[k]
+			if g == nil {
+				g = &gaugeLed{name: mv.FullName, tags: mv.Tags, later: map[uint64]bool{}, tasks: map[int]bool{}}
+				gauges[k] = g
+			}
+			g.tasks[r.Task] = true
+			if ob == required {
+				g.last, g.have = r.Op.F, true
+				g.later = map[uint64]bool{}
+			} else {
+				g.later[r.Op.F] = true
+			}
 		}
 	}
+	sumH := map[string]int64{}
+	lastG := map[string]uint64{}
+	haveG := map[string]bool{}
 	sum := map[string]int64{}
 	var lastDelivery, finalFlush, repClose *Event
 	nRepClose := 0
@@ -106,6 +142,15 @@ func checkC08(env *Env) []Violation {
 				if l := counters.lookup(e.Name, e.Tags); l != nil {
 					sum[l.key] += e.I
 				}
+			}
+			if (e.Kind == EvHVal || e.Kind == EvHDur) && e.Seq < firstRet {
+				if l := hists.lookup(e.Name, e.Tags); l != nil {
+					sumH[l.key] += e.I
+				}
+			}
+			if e.Kind == EvGauge && e.Seq < firstRet && !env.isInternalID(e.Name, e.Tags) {
+				lastG[idKey(e.Name, e.Tags)] = e.F
+				haveG[idKey(e.Name, e.Tags)] = true
 			}
 			lastDelivery = e
 		case EvFlush:
@@ -127,6 +172,19 @@ func checkC08(env *Env) []Violation {
 	for k, l := range counters.m {
 		if !l.admits(sum[k]) {
 			out = append(out, vf("close-lost-data", "counter %q %v: when Close returned %d had been delivered, recorded before Close was called: %d (+ optional %v)", l.name, l.tags, sum[k], l.req, l.opt))
+		}
+	}
+	for k, l := range hists.m {
+		if !l.admits(sumH[k]) {
+			out = append(out, vf("close-lost-data", "histogram %q %v: when Close returned %d samples had been delivered, recorded before Close was called: %d (+ optional %d)", l.name, l.tags, sumH[k], l.req, len(l.opt)))
+		}
+	}
+	for k, g := range gauges {
+		if !g.have || len(g.tasks) != 1 {
+			continue
+		}
+		if !haveG[k] || (lastG[k] != g.last && !g.later[lastG[k]]) {
+			out = append(out, vf("close-lost-data", "gauge %q %v: last update before Close was called was %v, the reporter's most recent value when Close returned is %v (delivered: %v)", g.name, g.tags, f64from(g.last), f64from(lastG[k]), haveG[k]))
 		}
 	}
 	// 2. a Flush follows the last delivery and precedes the return
